@@ -548,6 +548,9 @@ impl ExpandIfAny for KSwitchKeys {
 
 /// C14 events for one parameter set
 pub fn layout_events(pset_name: &str, seed: u64) {
+    if pset_name.starts_with("rnsp_") {
+        return rnsp_layout_events(pset_name, seed);
+    }
     silence_panics();
     let ps = pset(pset_name);
     let s = Suite::new(&ps);
@@ -591,6 +594,179 @@ pub fn layout_events(pset_name: &str, seed: u64) {
                    "returned": returned, "returned_ok": ret_ok, "written": w.buf.len(), "consumed": consumed, "roundtrip": rt, "roundtrip_other": rt_other,
                    "concat": concat, "interchange": interchange, "calls": w.calls.len()})
         );
+    }
+}
+
+/// C14 for the RNS-plaintext wrapper (src/app/rns_plain/serialize.rs): an object is the concatenation of its per-plain-modulus
+/// components (shape "cat"); vectors are length-prefixed.  `hcv ser-layout rnsp_<n>_<t1,t2,..>_<bits,..> <seed>`
+pub fn rnsp_layout_events(name: &str, seed: u64) {
+    use heathcliff::app::rns_plain::*;
+    silence_panics();
+    let parts: Vec<&str> = name.split('_').collect();
+    let n: usize = parts[1].parse().unwrap();
+    let ts: Vec<u64> = parts[2].split(',').map(|x| x.parse().unwrap()).collect();
+    let bits: Vec<usize> = parts[3].split(',').map(|x| x.parse().unwrap()).collect();
+    let mk_ctx = || {
+        let parms = RnspEncryptionParameters::new(SchemeType::BFV)
+            .set_poly_modulus_degree(n)
+            .set_plain_modulus(ts.iter().map(|&t| Modulus::new(t)).collect())
+            .set_coeff_modulus(CoeffModulus::create(n, bits.clone()));
+        RnspHeContext::new(parms, true, SecurityLevel::None)
+    };
+    let ctx = mk_ctx();
+    let ctx2 = mk_ctx(); // built independently from the same parameters
+    let kg = RnspKeyGenerator::new(&ctx);
+    let enc = RnspBatchEncoder::new(&ctx);
+    let encryptor = RnspEncryptor::new(&ctx).set_public_key(kg.create_public_key(false)).set_secret_key(kg.get_secret_key());
+    let dec = RnspDecryptor::new(&ctx, kg.get_secret_key());
+    let ev = RnspEvaluator::new(&ctx);
+    let k = ts.len();
+    let limits = |c: &HeContext, id: &ParmsID| -> Vec<usize> { c.get_context_data(id).unwrap().parms().coeff_modulus().iter().map(|m| (m.bit_count() + 7) / 8).collect() };
+    let ct_sh = |c: &HeContext, x: &Ciphertext, fmt: &str, nt: usize| -> Value {
+        json!({"k": "ct", "fmt": fmt, "scheme": "bfv", "size": x.size(), "n": n, "limits": limits(c, x.parms_id()), "seeded": is_seeded(x), "nterms": nt})
+    };
+    let cat_ct = |x: &RnspCiphertext, fmt: &str, nt: usize| -> Value {
+        json!({"k": "cat", "items": x.components.iter().zip(ctx.components.iter()).map(|(c, cx)| ct_sh(cx, c, fmt, nt)).collect::<Vec<_>>()})
+    };
+    let ksk_sh = |c: &HeContext, kk: &KSwitchKeys| -> Value {
+        json!({"k": "ksk", "keys": kk.keys().iter().map(|v| v.iter().map(|p| ct_sh(c, p.as_ciphertext(), "compact", 0)).collect::<Vec<_>>()).collect::<Vec<_>>()})
+    };
+    let expand = |x: &RnspCiphertext| -> RnspCiphertext { if is_seeded(&x.components[0]) { x.clone().expand_seed(&ctx) } else { x.clone() } };
+    let ct_eq = |a: &RnspCiphertext, b: &RnspCiphertext| a.components.len() == b.components.len() && a.components.iter().zip(b.components.iter()).all(|(x, y)| ct_bytes_eq(x, y));
+    let vals = |off: u64| -> Vec<u64> { (0..n * k).map(|i| if i % k == 0 { (i as u64 * 5 + off + seed) % ts[0] } else { 0 }).collect() };
+    let decode = |x: &RnspCiphertext| -> Option<Vec<u64>> { guarded(|| enc.decode_new(&dec.decrypt_new(x))).ok() };
+
+    // one event: ser / size / de are closures over the context so that the rebuilt context can be used too
+    let emit = |name: &str, shape: Value, ser: &dyn Fn(&RnspHeContext, &mut RecWriter) -> std::io::Result<usize>, size: &dyn Fn(&RnspHeContext) -> usize,
+                de: &dyn Fn(&RnspHeContext, &[u8]) -> std::io::Result<(usize, bool)>, inter: &dyn Fn(&[u8]) -> bool| {
+        let mut w = RecWriter { buf: vec![], calls: vec![] };
+        let returned = guarded(|| ser(&ctx, &mut w));
+        let announced = guarded(|| size(&ctx));
+        let (returned, ret_ok) = match returned {
+            Ok(Ok(x)) => (x as i64, true),
+            _ => (-1, false),
+        };
+        let (consumed, rt) = match guarded(|| de(&ctx, &w.buf)) {
+            Ok(Ok((c, e))) => (c as i64, e),
+            _ => (-1, false),
+        };
+        let rt_other = matches!(guarded(|| de(&ctx2, &w.buf)), Ok(Ok((_, true))));
+        let mut twice = w.buf.clone();
+        twice.extend_from_slice(&w.buf);
+        let concat = match guarded(|| {
+            let a = de(&ctx, &twice)?;
+            let b = de(&ctx, &twice[a.0..])?;
+            Ok::<_, std::io::Error>(a.1 && b.1 && a.0 == w.buf.len() && b.0 == w.buf.len())
+        }) {
+            Ok(Ok(v)) => v,
+            _ => false,
+        };
+        let interchange = guarded(|| inter(&w.buf)).unwrap_or(false);
+        println!(
+            "{}",
+            json!({"ev": "ser", "pset": name.split(':').next().unwrap_or(""), "name": name, "shape": shape, "rle": rle(&w.calls), "announced": announced.map(|x| x as i64).unwrap_or(-1),
+                   "returned": returned, "returned_ok": ret_ok, "written": w.buf.len(), "consumed": consumed, "roundtrip": rt, "roundtrip_other": rt_other,
+                   "concat": concat, "interchange": interchange, "calls": w.calls.len()})
+        );
+    };
+
+    // ciphertexts: fresh asymmetric, fresh symmetric (seeded), a product of size 3
+    let pa = enc.encode_new(&vals(1));
+    let fresh = encryptor.encrypt_new(&pa);
+    let seeded = encryptor.encrypt_symmetric_new(&pa);
+    let mut prod = fresh.clone();
+    let prod_ok = guarded(|| ev.multiply_inplace(&mut prod, &fresh)).is_ok();
+    let mut cts: Vec<(&str, RnspCiphertext)> = vec![("fresh", fresh.clone()), ("seeded", seeded.clone())];
+    if prod_ok {
+        cts.push(("product", prod.clone()));
+    }
+    for (nm, c) in &cts {
+        let expected = expand(c);
+        let want = decode(&expected);
+        emit(&format!("{}:ct_{}", name, nm), cat_ct(c, "compact", 0), &|cx, w| RnspSerializableWithHeContext::serialize(c, cx, w), &|cx| RnspSerializableWithHeContext::serialized_size(c, cx),
+             &|cx, b| { let mut r = CountReader { data: b, pos: 0 }; let d = <RnspCiphertext as RnspSerializableWithHeContext>::deserialize(cx, &mut r)?; Ok((r.pos, ct_eq(&d, &expected))) },
+             &|b| { let mut r = CountReader { data: b, pos: 0 }; match <RnspCiphertext as RnspSerializableWithHeContext>::deserialize(&ctx, &mut r) { Ok(d) => want.is_some() && decode(&d) == want, Err(_) => false } });
+        // (named deviation: the wrapper's `serialize_full` delegates to the components' compact `serialize`, and `deserialize_full` to `deserialize`)
+        emit(&format!("{}:ct_{}_full", name, nm), cat_ct(c, "compact", 0), &|cx, w| c.serialize_full(cx, w), &|cx| c.serialized_full_size(cx),
+             &|cx, b| { let mut r = CountReader { data: b, pos: 0 }; let d = RnspCiphertext::deserialize_full(cx, &mut r)?; Ok((r.pos, ct_eq(&d, &expected))) },
+             &|b| { let mut r = CountReader { data: b, pos: 0 }; match RnspCiphertext::deserialize_full(&ctx, &mut r) { Ok(d) => want.is_some() && decode(&d) == want, Err(_) => false } });
+        for terms in [vec![0usize], vec![1, n - 1], (0..n).collect::<Vec<_>>()] {
+            // the selected coefficients of polynomial 0 survive, the others become zero
+            let want_terms = guarded(|| {
+                let mut e = expected.clone();
+                for (comp, cx) in e.components.iter_mut().zip(ctx.components.iter()) {
+                    let kk = comp.coeff_modulus_size();
+                    let cd = cx.get_context_data(comp.parms_id()).unwrap();
+                    let ntt = comp.is_ntt_form();
+                    for j in 0..kk {
+                        let poly = comp.poly_component_mut(0, j);
+                        if ntt {
+                            heathcliff::verif::polymod::intt(poly, &cd.small_ntt_tables()[j]);
+                        }
+                        for (i, x) in poly.iter_mut().enumerate() {
+                            if !terms.contains(&i) {
+                                *x = 0;
+                            }
+                        }
+                        if ntt {
+                            heathcliff::verif::polymod::ntt(poly, &cd.small_ntt_tables()[j]);
+                        }
+                    }
+                }
+                e
+            });
+            let tl = terms.len();
+            emit(&format!("{}:ct_{}_terms{}", name, nm, tl), cat_ct(c, "terms", tl), &|cx, w| c.serialize_terms(cx, &terms, w), &|cx| c.serialized_terms_size(cx, tl),
+                 &|cx, b| { let mut r = CountReader { data: b, pos: 0 }; let d = RnspCiphertext::deserialize_terms(cx, &terms, &mut r)?; Ok((r.pos, matches!(&want_terms, Ok(e) if ct_eq(&d, e)))) },
+                 &|b| {
+                     // all terms selected: the restored ciphertext decrypts like the original
+                     if tl < n { return true; }
+                     let mut r = CountReader { data: b, pos: 0 };
+                     match RnspCiphertext::deserialize_terms(&ctx, &terms, &mut r) { Ok(d) => want.is_some() && decode(&d) == want, Err(_) => false }
+                 });
+        }
+    }
+    // a length-prefixed vector of ciphertexts (also the empty one)
+    for (nm, v) in [("vec2", vec![fresh.clone(), seeded.clone()]), ("vec0", vec![])] {
+        let expected: Vec<RnspCiphertext> = v.iter().map(|c| expand(c)).collect();
+        emit(&format!("{}:{}", name, nm), json!({"k": "vec", "items": v.iter().map(|c| cat_ct(c, "compact", 0)).collect::<Vec<_>>()}),
+             &|cx, w| RnspSerializableWithHeContext::serialize(&v, cx, w), &|cx| RnspSerializableWithHeContext::serialized_size(&v, cx),
+             &|cx, b| { let mut r = CountReader { data: b, pos: 0 }; let d = <Vec<RnspCiphertext> as RnspSerializableWithHeContext>::deserialize(cx, &mut r)?;
+                        Ok((r.pos, d.len() == expected.len() && d.iter().zip(expected.iter()).all(|(x, y)| ct_eq(x, y)))) },
+             &|_| true);
+    }
+    // keys
+    for seeded_key in [false, true] {
+        let tag = if seeded_key { "_seeded" } else { "" };
+        let pk = kg.create_public_key(seeded_key);
+        let pk_exp: Vec<Ciphertext> = pk.components.iter().zip(ctx.components.iter()).map(|(p, cx)| if is_seeded(p.as_ciphertext()) { p.as_ciphertext().clone().expand_seed(cx) } else { p.as_ciphertext().clone() }).collect();
+        emit(&format!("{}:pk{}", name, tag), json!({"k": "cat", "items": pk.components.iter().zip(ctx.components.iter()).map(|(p, cx)| ct_sh(cx, p.as_ciphertext(), "compact", 0)).collect::<Vec<_>>()}),
+             &|cx, w| RnspSerializableWithHeContext::serialize(&pk, cx, w), &|cx| RnspSerializableWithHeContext::serialized_size(&pk, cx),
+             &|cx, b| { let mut r = CountReader { data: b, pos: 0 }; let d = <RnspPublicKey as RnspSerializableWithHeContext>::deserialize(cx, &mut r)?;
+                        Ok((r.pos, d.components.len() == pk_exp.len() && d.components.iter().zip(pk_exp.iter()).all(|(x, y)| ct_bytes_eq(x.as_ciphertext(), y)))) },
+             &|b| { let mut r = CountReader { data: b, pos: 0 };
+                    match <RnspPublicKey as RnspSerializableWithHeContext>::deserialize(&ctx, &mut r) {
+                        Ok(d) => { let e2 = RnspEncryptor::new(&ctx).set_public_key(d); decode(&e2.encrypt_new(&pa)) == Some(vals(1)) }
+                        Err(_) => false } });
+        let rlk = kg.create_relin_keys(seeded_key);
+        let rlk_exp: Vec<KSwitchKeys> = rlk.components.iter().zip(ctx.components.iter()).map(|(r, cx)| r.as_kswitch_keys().clone().expand_seed_if_any(cx)).collect();
+        let relin_want = if prod_ok { guarded(|| { let full = RnspRelinKeys::from_raw_parts(rlk_exp.iter().map(|x| RelinKeys::new(x.clone())).collect()); let mut p2 = prod.clone(); ev.relinearize_inplace(&mut p2, &full); decode(&p2) }).ok().flatten() } else { None };
+        emit(&format!("{}:relin{}", name, tag), json!({"k": "cat", "items": rlk.components.iter().zip(ctx.components.iter()).map(|(r, cx)| ksk_sh(cx, r.as_kswitch_keys())).collect::<Vec<_>>()}),
+             &|cx, w| RnspSerializableWithHeContext::serialize(&rlk, cx, w), &|cx| RnspSerializableWithHeContext::serialized_size(&rlk, cx),
+             &|cx, b| { let mut r = CountReader { data: b, pos: 0 }; let d = <RnspRelinKeys as RnspSerializableWithHeContext>::deserialize(cx, &mut r)?;
+                        Ok((r.pos, d.components.len() == rlk_exp.len() && d.components.iter().zip(rlk_exp.iter()).all(|(x, y)| ksk_eq(x.as_kswitch_keys(), y)))) },
+             &|b| { if !prod_ok { return true; }
+                    let mut r = CountReader { data: b, pos: 0 };
+                    match <RnspRelinKeys as RnspSerializableWithHeContext>::deserialize(&ctx, &mut r) {
+                        Ok(d) => { let mut p2 = prod.clone(); ev.relinearize_inplace(&mut p2, &d); relin_want.is_some() && decode(&p2) == relin_want }
+                        Err(_) => false } });
+        let glk = kg.create_galois_keys(seeded_key);
+        let glk_exp: Vec<KSwitchKeys> = glk.components.iter().zip(ctx.components.iter()).map(|(r, cx)| r.as_kswitch_keys().clone().expand_seed_if_any(cx)).collect();
+        emit(&format!("{}:galois{}", name, tag), json!({"k": "cat", "items": glk.components.iter().zip(ctx.components.iter()).map(|(r, cx)| ksk_sh(cx, r.as_kswitch_keys())).collect::<Vec<_>>()}),
+             &|cx, w| RnspSerializableWithHeContext::serialize(&glk, cx, w), &|cx| RnspSerializableWithHeContext::serialized_size(&glk, cx),
+             &|cx, b| { let mut r = CountReader { data: b, pos: 0 }; let d = <RnspGaloisKeys as RnspSerializableWithHeContext>::deserialize(cx, &mut r)?;
+                        Ok((r.pos, d.components.len() == glk_exp.len() && d.components.iter().zip(glk_exp.iter()).all(|(x, y)| ksk_eq(x.as_kswitch_keys(), y)))) },
+             &|_| true);
     }
 }
 
